@@ -58,7 +58,7 @@ CLAIMED = {
             'text': 'all three iterator layers against reference cursors, for every cursor pattern of length <= 4 (quick: 17 patterns incl. all direction reversals, seeks and absolute repositioning; thorough: all 750): MergingIterator with CachingIterator inlined = cursor over the merged array (O4.1); DatabaseIterator = cursor over the pairs visible at its sequence number, every grouping of <= 3 internal entries into user keys (O4.2); TwoLevelIterator = cursor over the concatenated data blocks, and a seek into an unreadable block errs every time (O4.3); DB::new_iterator merges exactly the active memtable, the immutable memtable if any and the current version, at the snapshot / last published sequence (O4.4); Version::get_representative_iterators covers all seven levels (O4.5)',
             'note': B_NOTE + '; quick: 17 cursor patterns; block-level iterators are by contract', 'technique': TECH},
     'C05': {'engine': 'engine-b-mirse', 'design_ref': 'DESIGN.md section 4 C05',
-            'text': 'sequential mechanism only: DB::get / new_iterator read memtable pointer, immutable memtable, current version and visible sequence while the database mutex is held and look up at the published sequence (O5.1); a group commit merges exactly the queue prefix it acknowledges (O5.2); an iterator created during a flush includes the immutable memtable (O4.4); a write publishes its sequence under the mutex after the memtable insert (O6.1); a flush keeps the immutable memtable until the new version is installed (O2.4)',
+            'text': 'sequential mechanism only: DB::get / new_iterator read memtable pointer, immutable memtable, current version and visible sequence while the database mutex is held and look up at the published sequence (O5.1); a group commit merges exactly the queue prefix it acknowledges (O5.2); block-cache ids are drawn in one critical section (O5.3, environment step at every lock acquisition instead of interleavings); the memtable is never rotated over an immutable memtable that still waits for its flush (O9.3); an iterator created during a flush includes the immutable memtable (O4.4); a write publishes its sequence under the mutex after the memtable insert (O6.1); a flush keeps the immutable memtable until the new version is installed (O2.4)',
             'note': B_NOTE + '; this checks the documented capture-under-mutex mechanism, NOT linearizability: thread interleavings are not explored; a violation is replayed with a forced schedule through cfg(verif) scheduling points', 'technique': TECH + '; lock-state monitor over MIR paths'},
     'C06': {'engine': 'engine-b-mirse', 'design_ref': 'DESIGN.md section 4 C06',
             'text': 'sequential mechanism only: in DB::apply_changes the batch starts at prev+1, the WAL append precedes the memtable insert, and prev+len is published with the mutex held and only after the unlocked WAL+memtable section has returned (O6.1); reads look up at the published sequence (O5.1)',
